@@ -3,8 +3,10 @@ package h
 import (
 	"errors"
 	"fmt"
+	"github.com/netflix/rend/orcas"
 	"io"
 	"strings"
+	"sync"
 
 	"github.com/netflix/rend/common"
 	"github.com/netflix/rend/handlers"
@@ -252,6 +254,58 @@ func runC12(c *rt.Ctx) {
 				}
 			}
 		}
+	}
+	// many keys: whatever the wrapper does with a key (stripe choice, anything sampled by key
+	// content) must leave every stripe free once the command is answered. One connection, two commands
+	// on each of several thousand keys, the whole lock set probed after every command.
+	for _, lock := range []string{"single", "multi"} {
+		item++
+		if !c.Mine(item) || c.Expired() {
+			continue
+		}
+		nkeys := 3000
+		if c.Thorough() {
+			nkeys = 40000
+		}
+		cfg := Cfg{Orca: "l1l2b", Lock: lock, Proto: "binary", L1H: "std", Conc: 4}
+		InBubble(c.T, func() {
+			w := NewWorld(cfg)
+			defer w.Release()
+			sess := []*Session{w.Connect(0), w.Connect(1)}
+			ws, rs := orcas.VerifLockSet(w.LockSlot())
+			held := func() string {
+				for i := range ws {
+					for _, l := range []sync.Locker{ws[i], rs[i]} {
+						if p, _ := probeFor(l, ws[i]); !p() {
+							return fmt.Sprintf("stripe %d", i)
+						}
+					}
+				}
+				return ""
+			}
+			for i := 0; i < nkeys; i++ {
+				k := fmt.Sprintf("key%d", i)
+				if i%3 == 1 {
+					k = fmt.Sprintf("user:%d:profile", i)
+				}
+				s := sess[i%2]
+				for _, op := range []wire.Op{{Kind: "set", Key: k, Val: "v", Flags: 1}, {Kind: "get", Key: k}} {
+					op.Opaque = uint32(16 * len(s.Ops))
+					s.Do(op)
+					c.Eval(1)
+					if h := held(); h != "" || s.Ended {
+						c.Violation(fmt.Sprintf("C12 lock-leaked op=%s mode=many-keys cfg=%s", op.Kind, cfgClass(cfg)), fmt.Sprintf("after %s on key %q was answered, %s of the lock set is still locked (connection ended: %v)", op.Kind, k, h, s.Ended),
+							map[string]interface{}{"cfg": cfg, "key": k, "op": op.Kind})
+						return
+					}
+				}
+			}
+			for _, s := range sess {
+				s.Hangup()
+			}
+		})
+		c.Distinct("many-keys|" + lock)
+		c.Nontrivial("many-keys|" + lock)
 	}
 	// commands the deployed backend does not support: with the chunked L1 (memproxy --chunked --locked)
 	// get-with-expiry ends in a panic below the wrapper, with L2 enabled in an error return; either
